@@ -30,6 +30,7 @@ type Outcome struct {
 	Yield int    `json:"yield,omitempty"` // runtime.Gosched() calls before returning
 	Len   *int   `json:"len,omitempty"`   // forced list length
 	Type  string `json:"type,omitempty"`  // forced concrete type for abstract positions
+	Str   string `json:"str,omitempty"`   // forced Go string value for a string-kinded scalar position
 }
 
 // Rates are per-mille probabilities for hash-chosen outcomes.
@@ -331,7 +332,7 @@ func nilable(t reflect.Type) bool {
 }
 
 func (u *U) buildWith(s *State, rt reflect.Type, gt *ast.Type, path string, h uint64, o Outcome) (reflect.Value, V) {
-	if o.Len != nil || o.Type != "" {
+	if o.Len != nil || o.Type != "" || o.Str != "" {
 		return u.build2(s, rt, gt, path, h, false, &o)
 	}
 	return u.build(s, rt, gt, path, h, false)
@@ -373,7 +374,7 @@ func (u *U) build2(s *State, rt reflect.Type, gt *ast.Type, path string, h uint6
 				continue
 			}
 			var f *Outcome
-			if forced := s.Plan.Overrides[ep+"#elem"]; forced.Type != "" || forced.Len != nil {
+			if forced := s.Plan.Overrides[ep+"#elem"]; forced.Type != "" || forced.Len != nil || forced.Str != "" {
 				f = &forced
 			}
 			ev, evv := u.build2(s, et, gt.Elem, ep, eh, false, f)
@@ -434,6 +435,10 @@ func (u *U) build2(s *State, rt reflect.Type, gt *ast.Type, path string, h uint6
 		val := def.EnumValues[int((h>>16)%uint64(len(def.EnumValues)))].Name
 		return setScalar(rt, val, h), V{K: "leaf", Text: strconv.Quote(val)}
 	default: // scalar
+		if force != nil && force.Str != "" {
+			b, _ := json.Marshal(force.Str)
+			return setScalar(rt, force.Str, h), V{K: "leaf", Text: string(b)}
+		}
 		return u.scalar(rt, gt.NamedType, h)
 	}
 }
